@@ -205,6 +205,21 @@ func runC06(p *Prog, r *Report, tier string) {
 			} else {
 				r.OK("R-OWNER.insert", construct, p.instrPos(in), "linked both ways with its queue item; every path to the map insertion passes heap.Push", true)
 			}
+			// and the converse: once the item is scheduled the flow IS stored - no exit between the Push and the map insertion
+			isIns := func(x ssa.Instruction) bool {
+				mu, ok := x.(*ssa.MapUpdate)
+				if !ok {
+					return false
+				}
+				tn, fn, _, ok := loadedField(mu.Map)
+				return ok && tn+"."+fn == aggMap
+			}
+			q2 := &pathQuery{discharge: isIns}
+			if trail, bad := q2.find(push); bad {
+				r.Violation("R-OWNER.insert-after-push", construct, p.instrPos(push), "after heap.Push of the new item a function exit is reachable without the map insertion: a scheduled entry refers to a flow that is not held; path "+p.describePath(f, trail))
+			} else {
+				r.OK("R-OWNER.insert-after-push", construct, p.instrPos(push), "every path from the heap.Push to a function exit passes the map insertion", true)
+			}
 		})
 	}
 	if nNew == 0 {
